@@ -35,6 +35,28 @@ func genC39(t *Tape) *Plan {
 	cfg.ChunkPct = []int{0, 40, 80}[t.Draw("c39.chunk", 3)]
 	g.Connect(0)
 	g.Connect(1)
+	if t.Draw("c39.slow", 3) == 0 {
+		// a slow WebSocket peer: the broker's writes to it block for a while, and during that time both of its
+		// writers have something for it (the connection's reader an acknowledgement, the write loop a delivery).
+		// The WebSocket framing layer allows one writer at a time; the replies still arrive intact, as over TCP.
+		si := g.Subscribe(0)
+		g.plan.Ops[si].Pkt.Filters = []refcodec.Filter{{Filter: "#", Opts: 1}}
+		g.plan.Ops[si].Pkt.Props = nil
+		g.add(Op{Kind: "stall", Slot: 0})
+		for i, n := 0, 1+t.Draw("c39.slow.own", 2); i < n; i++ {
+			pi := g.Publish(0) // its own QoS 1 publish comes back to it: an acknowledgement and a delivery at once
+			pk := g.plan.Ops[pi].Pkt
+			pk.Topic, pk.Qos, pk.Retain = "t", 1, false
+			if pk.PacketID == 0 {
+				pk.PacketID = g.pid(0)
+			}
+		}
+		pi := g.Publish(1)
+		g.plan.Ops[pi].Pkt.Topic = "t"
+		g.add(Op{Kind: "ping", Slot: 0, Pkt: &refcodec.Packet{Type: refcodec.PINGREQ}})
+		g.add(Op{Kind: "unstall", Slot: 0})
+		g.add(Op{Kind: "advance", Ms: 10})
+	}
 	p := g.Run()
 	for i := range p.Ops {
 		p.Ops[i].Concurrent = false
@@ -101,6 +123,15 @@ func runC39(p *Profile, seed uint64, rf *ReplayFile) *RunOutcome {
 		if a, b := strings.Join(r1, "\n"), strings.Join(r2, "\n"); a != b {
 			o.Violations = append(o.Violations, viol("C39", "packets-read-differ", fmt.Sprintf("conn %d: over TCP the broker read %d packets, over WebSocket %d; first difference: %s", c.Idx, len(r1), len(r2), firstDiff(r1, r2)), -1,
 				"count", cmpCount(len(r1), len(r2))))
+		}
+		for _, op := range plan.Ops {
+			if op.Kind == "stall" {
+				// with a blocked connection two writers (the reader's acknowledgements, the write loop's deliveries) queue
+				// up behind it; in which order they get through is not part of transparency: same replies, any order.
+				// (DUP marks and packet identifiers of the deliveries depend on that order too and are blanked.)
+				w1, w2 = sortedReplies(w1), sortedReplies(w2)
+				break
+			}
 		}
 		if a, b := strings.Join(w1, "\n"), strings.Join(w2, "\n"); a != b {
 			o.Violations = append(o.Violations, viol("C39", "replies-differ", fmt.Sprintf("conn %d: replies over TCP and over WebSocket differ (%d vs %d packets); first difference: %s", c.Idx, len(w1), len(w2), firstDiff(w1, w2)), -1,
